@@ -44,11 +44,12 @@ impl FragmentBuffer {
         }
     }
 
-    pub fn finalize(mut self) -> Box<[u8]> {
+    pub fn finalize(self) -> Box<[u8]> {
         debug_assert!(self.total_size <= self.buffer.len());
-        let ptr = self.buffer.as_mut_ptr();
-        std::mem::forget(self.buffer);
-        unsafe { Box::from_raw(std::slice::from_raw_parts_mut(ptr, self.total_size)) }
+        // Shrink through Vec so that the block is reallocated to (and later freed with) its new size
+        let mut buffer = self.buffer.into_vec();
+        buffer.truncate(self.total_size);
+        buffer.into_boxed_slice()
     }
 
     pub fn is_finished(&self) -> bool {
